@@ -30,7 +30,8 @@ EXPLANATION = (
     'ChessParseError; (5) all pawn-direction square offsets (+/-8, +/-16) in the position, text and UCI code are colour-decided and '
     'occur in mirrored white/black pairs.'
     ' (6) PGN scanner look-ahead: every character read is appended, matched as a delimiter, skipped as white space or handed back before the next read / the return.'
-    ' Added later; the UCI promotion suffix of both printers is obtained by interpreting them per promotion code (fall-through and table look-up forms included).')
+    ' Added later; the UCI promotion suffix of both printers is obtained by interpreting them per promotion code (fall-through and table look-up forms included).'
+    ' Added later; (8) in every token-reading loop of the PGN parser the arm that recognises END has no path back to the loop header.')
 UNDECIDED = ('uniqueness of short move forms, round-trip equality of values, robustness against every byte string (needs execution); '
              'PGN tree round trip beyond the scanner look-ahead discipline of clause 6.')
 ASSUMPTIONS = ['char is an 8-bit type; the piece enumerators are those of Piece::Type']
@@ -50,6 +51,7 @@ def run(fb, rep, tier):
     c5_pawn_offsets(fb, rep)
     c6_scanner_lookahead(fb, rep)
     c7_eof_width(fb, rep)
+    c8_end_token_leaves_loops(fb, rep)
 
 
 PIECES = ['WKING', 'WQUEEN', 'WROOK', 'WBISHOP', 'WKNIGHT', 'WPAWN', 'BKING', 'BQUEEN', 'BROOK', 'BBISHOP', 'BKNIGHT', 'BPAWN']
@@ -664,3 +666,66 @@ def c7_eof_width(fb, rep):
             rep.ob(clause, 'K7 type', '%s: the value of istream::get() is held in an int (not narrowed to char) where it is compared with EOF' % f.sname,
                    ty in ('int', 'long', 'std::basic_istream<char>::int_type', 'int_type', 'std::char_traits<char>::int_type'), R.site(f, e), 'variable type: %s' % ty, f.sname)
     rep.floor(clause, 'end-of-file tests on istream::get()', n, 1)
+
+
+# ----------------------------------------------------------------------------- .8
+
+def c8_end_token_leaves_loops(fb, rep):
+    """K2 termination on exhausted input.  After the end of the input PgnScanner::nextToken() returns the END token on every
+    call.  So in every loop of the PGN parser that reads tokens, the END token must lead out of the loop: the arm (or
+    branch) that recognises END must not have a path back to the loop header inside the loop body.  A `break` that only
+    leaves the switch re-enters the loop, which then spins for ever on malformed input (an unclosed parenthesis)."""
+    clause = 'C17.8'
+    end = fb.const('PgnToken::END')
+    if rep.need(clause, end, 'PgnToken::END') is None:
+        return
+    n = 0
+    for f in sorted((f for f in fb.funcs.values() if f.has_cfg and (f.file or '').endswith('gametree.cpp')), key=lambda x: x.key):
+        loops = f.natural_loops()
+        for hdr, body in sorted(loops.items()):
+            reads = any(e.get('k') == 'call' and cname(e).split('::')[-1] in ('nextToken', 'nextTokenDropComments') for b in body for e in f.blocks[b]['ev']) or \
+                any(any(n_.get('k') == 'call' and cname(n_).split('::')[-1] in ('nextToken', 'nextTokenDropComments') for n_ in walk((f.blocks[b].get('term') or {}).get('cond') or {})) for b in body)
+            if not reads:
+                continue
+            # END recognisers inside the loop: switch arms labelled END, or branches on `type == END`
+            starts = []
+            for b in body:
+                t = f.blocks[b].get('term') or {}
+                if t.get('c') == 'SwitchStmt':
+                    for s_ in f.blocks[b]['succ']:
+                        lb = f.blocks[s_].get('label') or {}
+                        if lb.get('k') == 'case' and lb.get('v') == end:
+                            starts.append((s_, 'case END', b))
+                c = eff_cond(t) if t.get('cond') is not None and t.get('c') != 'SwitchStmt' else None
+                ce, pol = strip_not(c) if c is not None else (None, True)
+                if isinstance(ce, dict) and ce.get('k') == 'bin' and ce.get('op') in ('==', '!=') and any((_strip(x) or {}).get('cv') == end for x in (ce.get('l'), ce.get('r'))) and \
+                        any('type' in show(x, 40) for x in (ce.get('l'), ce.get('r'))) and len(f.blocks[b]['succ']) == 2:
+                    is_eq = (ce['op'] == '==') == pol
+                    starts.append((f.blocks[b]['succ'][0 if is_eq else 1], 'type == END', b))
+            if not starts:
+                continue
+            # only the innermost loop that contains the recogniser is judged
+            inner = {}
+            for sb, how, owner in starts:
+                smallest = min((len(bd), h) for h, bd in loops.items() if owner in bd)[1]
+                if smallest == hdr:
+                    inner[sb] = how
+            for sb, how in sorted(inner.items()):
+                n += 1
+                # can the header be reached again from the END arm without leaving the loop body?
+                seen = {sb}
+                st = [sb]
+                back = sb == hdr
+                while st and not back:
+                    x = st.pop()
+                    for s_ in f.blocks[x]['succ']:
+                        if s_ == hdr:
+                            back = True
+                            break
+                        if s_ in body and s_ not in seen:
+                            seen.add(s_)
+                            st.append(s_)
+                ln = (f.blocks[sb].get('label') or {}).get('ln') or (f.blocks[hdr].get('term') or {}).get('ln')
+                rep.ob(clause, 'K2 loop exit', '%s: in token loop #%d the END token leaves the loop' % (f.sname, n), not back, '%s:%s' % (f.file, ln),
+                       '%s at block %s; loop header %s' % (how, sb, hdr), f.sname)
+    rep.floor(clause, 'END recognisers inside token-reading loops of the PGN parser', n, 2)
